@@ -140,3 +140,52 @@ pub fn check_read(
 ) -> Result<Option<FootprintViolation>, String> {
     Err("enforcement-compiled-out".to_string())
 }
+
+/// `footprint_guard::moved_edge_previous_source` (crate-private): the state-dependent node write
+/// target of an `UpsertEdge` that moves an existing edge. Outer `None` = enforcement compiled out.
+#[cfg(all(any(debug_assertions, feature = "footprint_enforce_release"), not(feature = "unsafe_graph")))]
+pub fn moved_edge_previous_source(
+    store: &crate::graph::GraphStore,
+    op: &WarpOp,
+) -> Option<Option<NodeId>> {
+    Some(crate::footprint_guard::moved_edge_previous_source(store, op))
+}
+
+#[cfg(not(all(any(debug_assertions, feature = "footprint_enforce_release"), not(feature = "unsafe_graph"))))]
+pub fn moved_edge_previous_source(
+    _store: &crate::graph::GraphStore,
+    _op: &WarpOp,
+) -> Option<Option<NodeId>> {
+    None
+}
+
+/// `FootprintGuard::new(fp, store.warp_id(), name, is_system).check_op_in(store, op)` — the check
+/// `execute_item_enforced` runs on every emitted op; `Ok(None)` = accepted.
+#[cfg(all(any(debug_assertions, feature = "footprint_enforce_release"), not(feature = "unsafe_graph")))]
+pub fn check_op_in(
+    fp: &Footprint,
+    store: &crate::graph::GraphStore,
+    is_system: bool,
+    op: &WarpOp,
+) -> Result<Option<FootprintViolation>, String> {
+    use std::panic::{catch_unwind, AssertUnwindSafe};
+    let warp = store.warp_id();
+    let guard = catch_unwind(AssertUnwindSafe(|| {
+        crate::footprint_guard::FootprintGuard::new(fp, warp, "verif/guard", is_system)
+    }))
+    .map_err(|_| "guard-construction-panic".to_string())?;
+    match catch_unwind(AssertUnwindSafe(|| guard.check_op_in(store, op))) {
+        Ok(()) => Ok(None),
+        Err(p) => violation_of(p).map(Some),
+    }
+}
+
+#[cfg(not(all(any(debug_assertions, feature = "footprint_enforce_release"), not(feature = "unsafe_graph"))))]
+pub fn check_op_in(
+    _fp: &Footprint,
+    _store: &crate::graph::GraphStore,
+    _is_system: bool,
+    _op: &WarpOp,
+) -> Result<Option<FootprintViolation>, String> {
+    Err("enforcement-compiled-out".to_string())
+}
